@@ -64,6 +64,9 @@ pub fn generate_sel(seed: u64, tier: &str, sink: &mut Sink, only_refusal_bodies:
         let obs = run_send(&case);
         let head_complete = reply_kind == "valid";
         let o: Result<(), (String, String)> = (|| {
+            if matches!(obs.fin, FinalObs::Panic) {
+                return Err(("panic".into(), "send() panicked, or the error it returned cannot be shown (Display / Debug / source panicked)".into()));
+            }
             obs.resend_check("tunnel")?;
             if obs.hops.len() != 1 {
                 return Err(("connections".into(), format!("{} connections; final {:?}", obs.hops.len(), obs.fin)));
@@ -179,6 +182,16 @@ pub fn generate_sel(seed: u64, tier: &str, sink: &mut Sink, only_refusal_bodies:
             let head = format!("HTTP/1.1 407 Proxy Authentication Required\r\nContent-Length: {}\r\n\r\n", declared).into_bytes();
             run(407, head.clone(), "valid", body.clone(), 0, 0, true, &mut rng, sink);
             run(407, head, "valid", body, 2, 3, false, &mut rng, sink);
+        }
+        // refusal bodies that are text in some language: whatever the library does with the body of a refusal
+        // (keep it, cut it, quote it in the error message) works for multi-byte characters at every offset
+        // (seed C05-seed10)
+        for k in 0..6usize {
+            for unit in ["é", "日", "𝄞", "e\u{301}"] {
+                let mut body = "a".repeat(k).into_bytes();
+                body.extend_from_slice(unit.repeat(200).as_bytes());
+                run(403, b"HTTP/1.1 403 Forbidden\r\n\r\n".to_vec(), "valid", body, k % 4, (k + unit.len()) % 5, true, &mut rng, sink);
+            }
         }
         for len in [cap - 1, cap, cap + 1, 3 * cap, 1 << 20, 4 << 20] {
             let body: Vec<u8> = (0..len).map(|i| (i % 251) as u8).collect();
